@@ -964,7 +964,8 @@ func (p *Program) callerGuaranteesInput(fn *ssa.Function, min int64) bool {
 // cursor is moved back by one. Whatever else is added while a match is prepared has to be taken back before
 // the routine leaves through an error exit. The rule explores every path from the symbol boundary (the loop
 // head) to the common exit and checks the net movement of the cursor:
-//   only symbol-count terms, minus one exactly when the path took the "last symbol is not a literal" branch.
+//
+//	only symbol-count terms, minus one exactly when the path took the "last symbol is not a literal" branch.
 func ruleR18_10(p *Program, r *Report) {
 	r.Expect("R18.10", 1)
 	if asmLoadFailures(p, r, "R18.10") {
@@ -1010,13 +1011,13 @@ func ruleR18_10(p *Program, r *Report) {
 			continue
 		}
 		type state struct {
-			idx     int
-			k       int64  // constant part
-			counts  int    // number of symbol-count additions
-			pending string // other terms, canonical: "+R15;-R14;..." ; "!" marks a term that can no longer be cancelled
-			nonLit  bool
-			afterStore bool // previous instruction stored through the cursor
-			cmp256  string  // register compared with $256 by the previous CMPQ ("" if none)
+			idx        int
+			k          int64  // constant part
+			counts     int    // number of symbol-count additions
+			pending    string // other terms, canonical: "+R15;-R14;..." ; "!" marks a term that can no longer be cancelled
+			nonLit     bool
+			afterStore bool   // previous instruction stored through the cursor
+			cmp256     string // register compared with $256 by the previous CMPQ ("" if none)
 		}
 		seen := map[state]bool{}
 		var bad []string
